@@ -26,13 +26,16 @@ type reupload struct {
 	Bytes   int
 	useUM   bool
 	Rounds  int
+	// Redistribute: after the first round both buffers are spread over the GPUs of the set with Driver.Distribute
+	// (a buffer that has already been copied to and from is moved; the following upload must reach its new pages)
+	Redistribute bool
 
 	out  []uint32
 	want []uint32
 }
 
 func newReupload(d *driver.Driver, p map[string]int) *reupload {
-	b := &reupload{driver: d, Bytes: def(p, "bytes", 16384), Rounds: def(p, "rounds", 2)}
+	b := &reupload{driver: d, Bytes: def(p, "bytes", 16384), Rounds: def(p, "rounds", 2), Redistribute: def(p, "redistribute", 0) != 0}
 	b.context = d.Init()
 	return b
 }
@@ -61,6 +64,12 @@ func (b *reupload) Run() {
 		b.want = data
 		b.driver.MemCopyH2D(b.context, x, data)
 		b.driver.MemCopyD2D(b.context, y, x, b.Bytes)
+		if b.Redistribute && r == 0 && len(b.gpus) > 1 {
+			probe := make([]uint32, n)
+			b.driver.MemCopyD2H(b.context, probe, y) // the buffers have been copied in both directions
+			b.driver.Distribute(b.context, x, uint64(b.Bytes), b.gpus)
+			b.driver.Distribute(b.context, y, uint64(b.Bytes), b.gpus)
+		}
 	}
 	b.out = make([]uint32, n)
 	b.driver.MemCopyD2H(b.context, b.out, y)
